@@ -58,8 +58,10 @@ type fault struct {
 	Gate  string // gate occurrence at which it fires (kinds that need one)
 	K     int64  // byte offset (cut, write-error) or unexpected packet kind index
 	Reset bool
-	Mask  int
-	Hold  bool // hold the gated goroutine until the injected packet has been consumed (steers the schedule only)
+	// MidPacket (cut): byte K is not the first byte of a server packet in the pilot trace
+	MidPacket bool
+	Mask      int
+	Hold      bool // hold the gated goroutine until the injected packet has been consumed (steers the schedule only)
 }
 
 func (f *fault) String() string {
@@ -453,6 +455,7 @@ func runScenarioWith(sc scn, seed int64, f *fault, readTimeout time.Duration, ba
 		case "cut":
 			sim.Conn.ReadCutAfter = out.HandshakeR + f.K
 			sim.Conn.ReadCutReset = f.Reset
+			sim.Conn.ReadCutDeadWrites = f.Reset
 			out.Fired = true
 		case "write-error", "exception+write-error":
 			sim.Conn.WriteFailAfter = out.HandshakeW + f.K
